@@ -305,7 +305,7 @@ fn arb_case() -> impl Strategy<Value = (Case, u64)> {
     )
         .prop_map(|((items, removed), win10, fg, bg, background)| {
             let bytes = gen::render(&items);
-            let text = sanitize(&String::from_utf8(bytes).expect("sgr_stream is UTF-8"));
+            let text = sanitize(&String::from_utf8_lossy(&bytes));
             (Case { text, win10, fg, bg, background }, removed)
         })
 }
@@ -325,7 +325,7 @@ fn run(args: &Args, rep: &mut Report) {
         prop_par(
             "generated-documents",
             args.seed,
-            tier.pick(15_000, 200_000),
+            tier.pick(15_000, 1_500_000),
             arb_case,
             |(case, removed), acc: &mut Acc| {
                 let _ = removed;
